@@ -257,7 +257,7 @@ func vTypedQuery1WalkMid(W *vWorld, q *vQuerySpec, cached bool, tag string, mid 
 	q2.Close()
 	if cached {
 		f.Unregister()
-		vcheck(tag+"/unregistered", f.filter.cache == maxCacheID && len(W.w.storage.cache.filters) == 0)
+		vcheck(tag+"/unregistered", f.filter.cache == maxCacheID && len(W.w.storage.cache.filters) == W.nStanding)
 	}
 }
 
